@@ -73,6 +73,7 @@ theorem grow_fine (w₀ : World) : Fine (Grow w₀) := by
     emit := hemit
     obs := hobs
     close := keeps_close_of hmod hemit
+    drop := keeps_drop_of hmod hemit
     copen := keeps_copen_of hmod hemit hobs }
 
 theorem keeps_gnewDescriptor (w₀ : World) : Keeps (Grow w₀) newDescriptor := by
